@@ -444,3 +444,153 @@ pub fn c19_twins_case(seed: u64, case: u64) -> CaseResult {
 pub fn c19_twins_nontrivial(res: &CaseResult) -> bool {
     res.feat("two_heads_after_exchange") >= 1 && res.feat("edits") >= 3
 }
+
+// ------------------------------------------------------------------------------------ C14 (full-mesh histories)
+/// 3-4 replicas commit concurrently and synchronise all-to-all before the next round, so that
+/// blocks have 3-4 parents; then every head set replica 0 ever had is revisited.
+pub fn c14_mesh_case(seed: u64, case: u64) -> CaseResult {
+    use crate::gen;
+    let mut res = CaseResult::default();
+    let mut r = Rng::derive(seed, case, 0xC14);
+    let dp = gen::DocProfile { id_pool: 6, kind_change: false, ..gen::DocProfile::default() };
+    let n = 3 + r.below(2);
+    let rounds = 3 + r.below(3);
+    let caps = (*r.pick(&[1u32, 2, 16]), *r.pick(&[1u32, 2, 16]));
+    let mut reps: Vec<(Ad, Melda)> = vec![];
+    for _ in 0..n {
+        let (ad, _) = store::mon_mem();
+        match open_with(&ad, caps) {
+            Outcome::Ok(m) => reps.push((ad, m)),
+            o => {
+                res.aborted = Some(o.describe());
+                return res;
+            }
+        }
+    }
+    let mut recorded: Vec<(BTreeSet<DeltaId>, Obs)> = vec![];
+    let mut max_parents = 0usize;
+    let hist = guard(|| {
+        for round in 0..rounds {
+            for i in 0..n {
+                let base = reps[i].1.read(None).ok().map(serde_json::Value::Object);
+                let d = match base {
+                    Some(b) => gen::mutate_doc(&mut r, &dp, &b),
+                    None => gen::rand_doc(&mut r, &dp),
+                };
+                reps[i].1.update(d.as_object().unwrap().clone())?;
+                if let Some(an) = reps[i].1.commit(Some(json!({"round": round, "replica": i}).as_object().unwrap().clone()))? {
+                    for a in &an {
+                        if let Ok(Some(dl)) = reps[i].1.get_delta(a) {
+                            max_parents = max_parents.max(dl.parents.map(|p| p.len()).unwrap_or(0));
+                        }
+                    }
+                    if i == 0 {
+                        recorded.push((an, observe(&reps[0].1)));
+                    }
+                }
+            }
+            for i in 0..n {
+                for j in 0..n {
+                    if i != j {
+                        let (a, b) = if i < j {
+                            let (x, y) = reps.split_at_mut(j);
+                            (&mut x[i], &mut y[0])
+                        } else {
+                            let (x, y) = reps.split_at_mut(i);
+                            (&mut y[0], &mut x[j])
+                        };
+                        a.1.meld(&b.1)?;
+                    }
+                }
+                reps[i].1.refresh()?;
+                if i == 0 {
+                    recorded.push((reps[0].1.get_anchors(), observe(&reps[0].1)));
+                }
+            }
+        }
+        Ok(())
+    });
+    match hist {
+        Outcome::Ok(()) => {}
+        Outcome::Err(e) => {
+            res.viol("C08", "error-in-mesh-history", e);
+            return res;
+        }
+        Outcome::Panic(p) => {
+            res.viol("C08", "panic-in-mesh-history", p);
+            return res;
+        }
+    }
+    // a last exchange so that replica 0 holds everything, then revisit every recorded head set
+    let fin = guard(|| {
+        for j in 1..n {
+            let (a, b) = reps.split_at_mut(j);
+            a[0].1.meld(&b[0].1)?;
+        }
+        reps[0].1.refresh()
+    });
+    if !fin.is_ok() {
+        res.viol("C08", "final-sync-failed-in-mesh-history", fin.describe());
+        return res;
+    }
+    let latest = observe(&reps[0].1);
+    let mut order: Vec<usize> = (0..recorded.len()).collect();
+    r.shuffle(&mut order);
+    for k in order {
+        let (h, exp) = &recorded[k];
+        if h.is_empty() {
+            continue;
+        }
+        let hs: BTreeSet<String> = h.iter().map(|x| x.to_string()).collect();
+        let m = &reps[0].1;
+        match guard(|| m.reload_until(h)) {
+            Outcome::Ok(()) => {
+                let st = observe(m);
+                if st.s_value(false) != exp.s_value(false) {
+                    res.viol("C14", "past-state-differs", format!("{} heads: {}", h.len(), exp.diff(&st)));
+                }
+                if st.anchors != hs {
+                    res.viol("C14", "heads-after-travel", format!("{:?} vs {:?}", st.anchors, hs));
+                }
+            }
+            Outcome::Err(e) => res.viol("C14", "reload_until-returned-error", e),
+            Outcome::Panic(p) => {
+                res.viol("C08", "panic-in-reload_until", p.clone());
+                res.viol("C14", "reload_until-panicked", p);
+                return res;
+            }
+        }
+        let ad = reps[0].0.clone();
+        engine::set_caps(caps);
+        match guard(|| Melda::new_until(ad, h)) {
+            Outcome::Ok(m2) => {
+                let o2 = observe(&m2);
+                if o2.s_value(false) != exp.s_value(false) {
+                    res.viol("C14", "new_until-differs", exp.diff(&o2));
+                }
+            }
+            o => res.viol("C14", "new_until-failed", o.describe()),
+        }
+        res.count("c14_travels_checked", 1);
+        if h.len() >= 2 {
+            res.feat_add("multi_head_travels", 1);
+        }
+    }
+    let m = &reps[0].1;
+    match guard(|| m.reload()) {
+        Outcome::Ok(()) => {
+            let back = observe(m);
+            if back.s_value(false) != latest.s_value(false) || back.anchors != latest.anchors {
+                res.viol("C14", "reload-does-not-return-to-latest", latest.diff(&back));
+            }
+        }
+        o => res.viol("C14", "reload-after-travel-failed", o.describe()),
+    }
+    res.features.insert("replicas".into(), n as u64);
+    res.features.insert("rounds".into(), rounds as u64);
+    res.features.insert("max_parents".into(), max_parents as u64);
+    res.features.insert("recorded_head_sets".into(), recorded.len() as u64);
+    res.opkinds = format!("{}x{}:{}", n, rounds, max_parents);
+    res.sample = Some(json!({"replicas": n, "rounds": rounds, "max_parents_of_a_block": max_parents, "head_sets_revisited": recorded.len()}));
+    res
+}
